@@ -79,7 +79,10 @@ async fn run(mut sim: Sim, seed: u64) -> Result<Value, String> {
             sim.run.fabric.partition(sim.addr(0), sim.addr(1));
             sim.run.obs(-1, "obs.fault", json!({"a": 0, "b": 1, "what": "silent"}));
             let since = sim.run.now_ms();
-            settle(&mut sim, 3_000 + 4_500).await;
+            // (observed 5.3 s after the cut: past the configured idle timeout by the 2 s the deadline rule
+            // allows after the first datagram sent into the void, and before a timeout that was quietly
+            // doubled - 6 s - would have run out)
+            settle(&mut sim, 3_000 + 2_300).await;
             for (a, b) in [(0usize, 1usize), (1, 0)] {
                 let listed = sim.net(a).peers().contains(&sim.peer_id(b));
                 sim.run.obs(a as i64, "obs.silent_end", json!({"other": b, "since": since, "listed": listed}));
